@@ -373,7 +373,7 @@ def _shared(ctx):
     share(ctx, 'C01', 'R6/C01.', ['R2.'])
     # under MPI the adjustment data stored with a result are the reduced data of THIS iteration whatever order the
     # compiler evaluates constructor arguments in (shared with C04)
-    share(ctx, 'C04', 'R7/C04.', ['R6.evaluation_order', 'R6.adjustment_reduced', 'R6.reduced_result'])
+    share(ctx, 'C04', 'R7/C04.', ['R6.evaluation_order', 'R6.adjustment_reduced', 'R6.reduced_result', 'R4.collectives_unconditional', 'R5.returned_buffer', 'R5.unpack'])
 
 
 def algebra_equal(a, b):
